@@ -239,7 +239,7 @@ def main():
     import argparse
     ap = argparse.ArgumentParser()
     ap.add_argument('prop'); ap.add_argument('--tier', default=os.environ.get('VERIF_TIER', 'quick')); ap.add_argument('--replay', default=None)
-    ap.add_argument('--only', default=None, help='regex on harness names'); ap.add_argument('--jobs', type=int, default=min(16, os.cpu_count() or 4))
+    ap.add_argument('--only', default=None, help='regex on harness names'); ap.add_argument('--jobs', type=int, default=int(os.environ.get('VERIF_JOBS', min(16, os.cpu_count() or 4))))
     ap.add_argument('--keep', action='store_true'); ap.add_argument('-v', action='store_true')
     a = ap.parse_args()
     prop = a.prop; tier = a.tier; seed = int(os.environ.get('VERIF_SEED', '0') or 0); t0 = time.time()
